@@ -8,13 +8,17 @@ type ssa_Global = ssa.Global
 
 type opaqueMethodFn func(e *Exec, ov *OpaqueVal, args []Value) Value
 
-func (w *World) opaqueMethod(ov *OpaqueVal, name string) opaqueMethodFn { return nil }
+func (w *World) opaqueMethod(ov *OpaqueVal, name string) opaqueMethodFn {
+	return w.opaqueMethodImpl(ov, name)
+}
 
 func (w *World) globalOverride(e *Exec, g *ssa.Global) (Value, bool) { return nil, false }
 
 func (w *World) registerMoreIntrinsics() {
 	I := w.intrinsics
 	w.registerHTTPIntrinsics()
+	w.registerTimeIntrinsics()
+	w.registerHTTPEffects()
 	terms := func(e *Exec, v Value) []*Term {
 		var ts []*Term
 		for _, x := range e.sliceElems(v.(*SliceVal)) {
